@@ -243,6 +243,68 @@ theorem levels_map (phi theta : List K) (l1 l2 : List K) (mask bypass : Bool) :
       interp1dLinear phi theta l1 mask bypass ++ interp1dLinear phi theta l2 mask bypass := by
   simp [interp1dLinear]
 
+/-- a strictly increasing transformation (the logarithm on positive values) keeps a profile
+    strictly increasing … -/
+theorem map_inc (L : K → K) (hL : ∀ a b, a < b → L a < L b) (l : List K) (h : Inc l) : Inc (l.map L) := by
+  induction l with
+  | nil => trivial
+  | cons a r ih =>
+    cases r with
+    | nil => trivial
+    | cons b q => exact ⟨hL a b h.1, ih h.2⟩
+
+/-- … so **method 'log' is the same interpolation in the logarithms**: at a level inside the range
+    it returns the value at `L lev` of the line through the two points that bracket `lev`, drawn
+    against the transformed target_data - for every strictly increasing `L`, every column length. -/
+theorem log_is_pwl_in_logs (L : K → K) (hL : ∀ a b, a < b → L a < L b) (phi theta : List K) (lev : K)
+    (hinc : Inc theta) (hlen : theta.length = phi.length) (h2 : 2 ≤ theta.length)
+    (h0 : theta.headD 0 ≤ lev) (hlt : lev < theta.getLastD 0) :
+    ∃ j, ∃ (hj : j + 1 < theta.length), theta[j] ≤ lev ∧ lev < theta[j + 1] ∧
+      interp1dLog L phi theta [lev] false true =
+        [some (seg (L theta[j]) (L theta[j + 1]) (phi[j]'(by omega)) (phi[j + 1]'(by omega)) (L lev))] := by
+  have hmono : ∀ a b, a ≤ b → L a ≤ L b := by
+    intro a b hab
+    rcases lt_or_eq_of_le hab with h | h
+    · exact le_of_lt (hL a b h)
+    · rw [h]
+  have hinj : ∀ a b, L a ≤ L b → a ≤ b := by
+    intro a b hab
+    by_contra hc
+    exact absurd (hL b a (lt_of_not_ge hc)) (not_lt_of_ge hab)
+  have hlt' : ∀ a b, L a < L b → a < b := by
+    intro a b hab
+    by_contra hc
+    exact absurd (hmono b a (le_of_not_gt hc)) (not_le_of_gt hab)
+  have hlenm : (theta.map L).length = phi.length := by simpa using hlen
+  have h2m : 2 ≤ (theta.map L).length := by simpa using h2
+  have hhead : (theta.map L).headD 0 ≤ L lev := by
+    cases theta with
+    | nil => simp at h2
+    | cons a r => simpa using hmono _ _ (by simpa using h0)
+  have hlast : L lev < (theta.map L).getLastD 0 := by
+    rw [List.getLastD_eq_getLast?, List.getLast?_map]
+    rw [List.getLastD_eq_getLast?] at hlt
+    cases hth : theta.getLast? with
+    | none => simp [List.getLast?_eq_none_iff] at hth; subst hth; simp at h2
+    | some z => rw [hth] at hlt; simpa using hL _ _ hlt
+  obtain ⟨j, hj, hj1, hj2, hval⟩ :=
+    npInterp_is_pwl (theta.map L) phi (L lev) (map_inc L hL theta hinc) hlenm h2m hhead hlast
+  have hj' : j + 1 < theta.length := by simpa using hj
+  refine ⟨j, hj', hinj _ _ (by simpa using hj1), hlt' _ _ (by simpa using hj2), ?_⟩
+  simp only [interp1dLog, interp1dLinear, Bool.not_true, Bool.false_and, Bool.false_eq_true, if_false,
+    List.map_cons, List.map_nil]
+  rw [hval]
+  simp
+
+/-- edge masking is decided in the logarithms exactly as in the original values -/
+theorem log_mask_below (L : K → K) (hL : ∀ a b, a < b → L a < L b) (phi theta : List K) (lev a : K)
+    (r : List K) (hth : theta = a :: r) (hinc : Inc theta) (hlen : theta.length = phi.length) :
+    (lev < a → interp1dLog L phi theta [lev] true true = [none]) ∧
+    (interp1dLog L phi theta [a] true true ≠ [none]) := by
+  have h := mask_below phi (theta.map L) (L lev) (L a) (r.map L) (by simp [hth])
+    (map_inc L hL theta hinc) (by simpa using hlen)
+  exact ⟨fun hl => h.1 (hL _ _ hl), h.2⟩
+
 /-- non-vacuity -/
 example : Inc ([0, 1, 3] : List Rat) ∧ 2 ≤ ([0, 1, 3] : List Rat).length := by
   refine ⟨⟨by norm_num, by norm_num, trivial⟩, by decide⟩
